@@ -79,6 +79,21 @@ Theorem C10_join_preserves : forall body pick p q r kw S,
 Proof. exact join_preserves. Qed.
 Print Assumptions C10_join_preserves.
 
+Example C10_example_join :
+  let p := lift [mkf (s "f") [s "a"] [(s "x", s "x")] [] [] false] in
+  let q := lift [mkf (s "g") [s "b"] [(s "a", s "a"); (s "y", s "y")] [(s "y", s "d")] [] false] in
+  let S := [s "a"; s "x"] in
+  (exists r, join p q = Ok r) /\ closed_under p S
+  /\ (forall n, In n S -> ~ In n (all_outputs (funcs q)))
+  /\ (forall n, In n S -> is_output (funcs p) n = false -> default_of (funcs (p ++ q)) n = default_of (funcs p) n).
+Proof.
+  cbv zeta. split; [eexists; vm_compute; reflexivity|]. split; [|split].
+  - intros o nd c [<-|[<-|[]]] E Hc Hb; vm_compute in E; [|discriminate].
+    injection E as <-. cbn in Hc. destruct Hc as [<-|[]]. right. left. reflexivity.
+  - intros n [<-|[<-|[]]]; vm_compute; intuition discriminate.
+  - intros n [<-|[<-|[]]] H; vm_compute in H; [discriminate|]. vm_compute. reflexivity.
+Qed.
+
 (* split_preserves: the part of split_disconnected() that holds output o contains o's function, and every output
    of that part evaluates exactly as in the whole pipeline (the connected components computed by the model are
    closed under adjacency: component_closed) *)
@@ -189,12 +204,13 @@ Print Assumptions C10_neval_lift.
 (* nest_preserves, soundness direction: whenever the pipeline produced by nest_funcs(names, new_out) computes a
    value for an output, the original pipeline computes that same value for the same keywords - provided the
    keywords do not name an output produced inside the nested group, every output of the group that a function
-   outside consumes is kept (new_out), and root arguments keep their defaults (extra hypothesis, not derived).
+   outside consumes is kept (new_out); outputs are unique, defaults consistent and declared for parameters
+   (what construction checks).
    NOT proved: the converse (the nested pipeline succeeds whenever the original does and all arguments of the
    nested function have values); it is exercised by the correspondence check only.
    Full statement wanted:  wf p -> nest names new_out p = Ok p' -> o retained -> kw over the root arguments of p'
                            -> neval p' kw o = neval p kw o   (up to fuel). *)
-Theorem C10_nest_preserves_partial : forall body pick names new_out p p' kw,
+Theorem C10_nest_sound : forall body pick names new_out p p' kw,
   nest names new_out p = Ok p' ->
   (forall n1 n2 o, In n1 p -> In n2 p -> In o (outs (nf n1)) -> In o (outs (nf n2)) -> n1 = n2) ->
   (forall n, In n p -> outs (nf n) <> []) ->
@@ -202,10 +218,11 @@ Theorem C10_nest_preserves_partial : forall body pick names new_out p p' kw,
   (forall k, In k (akeys kw) -> ~ In k (all_outputs (funcs fs))) ->
   (forall a c, In a p -> ~ In a fs -> In c (pnames (nf a)) -> ahas (bound (nf a)) c = false ->
                In c (all_outputs (funcs fs)) -> In c (nested_outs fs new_out)) ->
-  (forall c, is_output (funcs p) c = false -> default_of (funcs p') c = default_of (funcs p) c) ->
+  (forall n k, In n p -> In k (akeys (dflt (nf n))) -> In k (pnames (nf n))) ->
+  consistent_defaults (funcs p) = true ->
   forall n o v, neval body pick n p' kw o = Ok v -> exists m, neval body pick m p kw o = Ok v.
 Proof. exact nest_preserves. Qed.
-Print Assumptions C10_nest_preserves_partial.
+Print Assumptions C10_nest_sound.
 
 (* non-vacuity: f(x)->a, g(a,y)->b, h(b,a)->c ; nest {a, b} keeping (a, b) *)
 Example C10_example_nest :
@@ -213,11 +230,11 @@ Example C10_example_nest :
                  mkf (s "g") [s "b"] [(s "a", s "a"); (s "y", s "y")] [] [] false;
                  mkf (s "h") [s "c"] [(s "b", s "b"); (s "a", s "a")] [] [] false] in
   exists p', nest [s "a"; s "b"] (Some [s "a"; s "b"]) p = Ok p'
-    /\ (forall c, default_of (funcs p') c = default_of (funcs p) c)
+    /\ consistent_defaults (funcs p) = true
     /\ neval Sym.body Sym.pick 5 p' [(s "x", s "X"); (s "y", s "Y")] (s "c") = Ok (s "h(b=g(a=f(x=X),y=Y),a=f(x=X))")
     /\ neval Sym.body Sym.pick 5 p [(s "x", s "X"); (s "y", s "Y")] (s "c") = Ok (s "h(b=g(a=f(x=X),y=Y),a=f(x=X))").
 Proof.
-  cbv zeta. eexists. split; [vm_compute; reflexivity|]. split; [intros c; reflexivity|].
+  cbv zeta. eexists. split; [vm_compute; reflexivity|]. split; [vm_compute; reflexivity|].
   split; vm_compute; reflexivity.
 Qed.
 
